@@ -363,8 +363,16 @@ func (e sfSysInfo) Sys() any {
 	return &syscall.Stat_t{Uid: e.nd.uid + 7777, Gid: e.nd.gid + 7777, Nlink: 3}
 }
 
+// sfSnap copies a node's attributes (callers hold fs.mu): a FileInfo handed to the server is marshalled later, in
+// another goroutine, and must not change under it when a following request modifies the node.
+func sfSnap(nd *sfNode) *sfNode {
+	cp := *nd
+	cp.data = nil
+	return &cp
+}
+
 func (fs *sfs) info(p string, nd *sfNode) os.FileInfo {
-	i := &sfInfo{name: path.Base(p), nd: nd, size: int64(len(nd.data))}
+	i := &sfInfo{name: path.Base(p), nd: sfSnap(nd), size: int64(len(nd.data))}
 	switch nd.shape {
 	case 1:
 		return sfPlainInfo{i}
@@ -584,7 +592,7 @@ func (fs *sfs) filelist(method string, r *Request) (ListerAt, error) {
 			return nil, syscall.ENOTDIR
 		}
 		if fs.dotEntries {
-			names = append(names, &sfInfo{name: ".", nd: nd}, &sfInfo{name: "..", nd: nd})
+			names = append(names, &sfInfo{name: ".", nd: sfSnap(nd)}, &sfInfo{name: "..", nd: sfSnap(nd)})
 		}
 		for _, c := range fs.children(r.Filepath) {
 			names = append(names, fs.info(c, fs.nodes[c]))
@@ -616,7 +624,7 @@ func (fs *sfs) filelist(method string, r *Request) (ListerAt, error) {
 			fs.mu.Unlock()
 			return nil, syscall.EINVAL
 		}
-		names = []os.FileInfo{&sfInfo{name: nd.target, nd: nd}}
+		names = []os.FileInfo{&sfInfo{name: nd.target, nd: sfSnap(nd)}}
 	default:
 		fs.mu.Unlock()
 		return nil, fmt.Errorf("simfs: unexpected list method %q", r.Method)
